@@ -5,9 +5,13 @@ MC_Kind1 == <<"new">>
 MC_None == {}
 MC_NoDups == {}
 MC_FormsNoRng == {"norng"}
-MC_ExNone == {FALSE}
-MC_ExBoth == {FALSE, TRUE}
-MC_Forms == {"value", "ref", "option", "box", "arc", "dyn", "ambient"}
+MC_ExNone == {"gen"}
+MC_ExBoth == {"gen", "all"}
+MC_ExAllOnly == {"all"}
+\* ids drawn by the program itself (Rng::fill / gen_*, SpanCtxt::new_root) and partly explicit ids
+MC_ExSrc == {"gen", "drawn", "root", "id"}
+MC_ExEvery == {"gen", "all", "drawn", "root", "id"}
+MC_Forms == {"value", "ref", "option", "box", "arc", "dyn", "ambient", "stack"}
 
 ASSUME PrintT(<<"FORMS", ToJson(CtxForms)>>)
 MC_IncAll == {"both", "trace", "span"}
